@@ -403,9 +403,9 @@ func runValidate(c *core.Ctx) []core.Obligation {
 			}
 		}
 		if bad != "" {
-			b.addP([]string{"C05", "C11"}, core.Violation, "flag-freshness:Decoder.flags", bad, "Decoder.flags is assigned something other than its old value OR a public flag constant")
+			b.addP([]string{"C05", "C11", "C02", "C14"}, core.Violation, "flag-freshness:Decoder.flags", bad, "Decoder.flags is assigned something other than its old value OR a public flag constant")
 		} else {
-			b.addP([]string{"C05", "C11"}, core.Discharged, "flag-freshness:Decoder.flags", "-", "Decoder.flags only ever ORs public flag constants")
+			b.addP([]string{"C05", "C11", "C02", "C14"}, core.Discharged, "flag-freshness:Decoder.flags", "-", "Decoder.flags only ever ORs public flag constants")
 		}
 	}
 
